@@ -54,6 +54,11 @@ fn judge(r: &fp_sched::core::ExecResult, o: &scenario::Obs, scn: &Scn, expected_
         for (t, m) in &r.panics {
             out.push((format!("stop:panic:{}", t.split(' ').next().unwrap_or(t)), format!("thread {t} panicked: {m}")));
         }
+        // "with all worker threads finished": when the main thread ends, no other thread may still be running
+        // (a real process ends there and cuts them off, e.g. a writer that is still flushing)
+        if r.outcome == Outcome::Completed && !r.alive_at_main_exit.is_empty() {
+            out.push(("stop:main-ended-before-worker-threads".into(), format!("threads still running when the main thread ended: {:?}", r.alive_at_main_exit)));
+        }
         if r.outcome == Outcome::Completed && !o.finished {
             out.push(("stop:main-did-not-finish".into(), "all threads ended but the main thread did not reach its end".into()));
         }
@@ -382,6 +387,22 @@ fn jobs(tier: Tier) -> (Vec<Job>, u32) {
         };
         let scn = Scn { mode: Mode::Write(0), mute: false, max_errors: 0, signal: true, cap: 1, input: clean3.clone(), scratch: scratch(), toml: false };
         jobs.push(Job { scn, cap_override: Some(cap), bound, label: format!("signal, filtered writing of link 0, queue capacity {cap}"), expected_output: Some(expected), must_stop: false });
+    }
+    // (a2) a second stop cause behind the first: the signal, or the error cap, followed by a fatal framing error later
+    //      in the stream - the fatal error must be recorded and flagged whenever the reader still ran into it
+    {
+        let w = stream::walk(&faulty3).0;
+        for at in [2usize, 5] {
+            let mut b = (*faulty3).clone();
+            let off = w[at].offset as usize;
+            b[off + 8] = 0x10;
+            b[off + 9] = 0;
+            let input = Arc::new(b);
+            let scn = Scn { mode: Mode::AllIts, mute: false, max_errors: 0, signal: true, cap: 2, input: input.clone(), scratch: scratch(), toml: false };
+            jobs.push(Job { scn, cap_override: Some(1), bound, label: format!("signal, then a fatal framing error at packet {at}, queue capacity 1"), expected_output: None, must_stop: false });
+            let scn = Scn { mode: Mode::AllIts, mute: false, max_errors: 1, signal: false, cap: 2, input, scratch: scratch(), toml: false };
+            jobs.push(Job { scn, cap_override: Some(1), bound, label: format!("error cap -e 1, then a fatal framing error at packet {at}, queue capacity 1"), expected_output: None, must_stop: false });
+        }
     }
     // (b) error cap for every N
     // the exact number of errors the stream produces: from an uncapped reference execution's statistics file
